@@ -212,6 +212,19 @@ theorem seeded_prefix_irrelevant {S V : Type} (I : Interp S V) (seed : Nat) (p :
     simpa [seededFirst, firstBad, Option.isNone_iff_eq_none] using h
   exact execOps_agree I seed p.ops Known.nothing 0 w w' hb (agree_nothing w w')
 
+/-- **What `seededFirst` decides, in words** (programs made of seedings, draws and markers — every program recorded on the
+    unchanged code): the seed covers every generator used, i.e. every draw comes after a seeding of the generator it draws from. -/
+theorem seededFirst_iff_every_draw_after_its_seed (p : Prog) (hp : ∀ e ∈ p, e.op.plain = true) :
+    seededFirst p = true ↔
+      ∀ (idx g kd n : Nat), p.ops[idx]? = some (Op.draw g kd n) → ∃ j, j < idx ∧ ∃ v, p.ops[j]? = some (Op.seed g v) := by
+  have hp' : ∀ o ∈ p.ops, o.plain = true := by
+    intro o ho
+    obtain ⟨e, he, rfl⟩ := List.mem_map.1 ho
+    exact hp e he
+  simp only [seededFirst, firstBad, Option.isNone_iff_eq_none]
+  rw [firstBadOps_plain_iff p.ops Known.nothing 0 hp']
+  simp [Known.nothing]
+
 /-- F32, the code as shipped: a fit with `initialization_method="random"` drew its initial values before `algorithm.run`
     seeded the generators.  The program is rejected by `seededFirst`, and its draws do depend on history. -/
 theorem seeded_prefix_irrelevant_counterexample :
